@@ -263,6 +263,12 @@ func c16ListLaws(c *Ctx, dr *Driver, h *HistGen, g *Gen, docM map[string]interfa
 		for _, e := range xs {
 			r1, p1 := safeSatisfy(query.Field(f).Contains(e), doc)
 			r2, p2 := safeSatisfy(query.Field(f).In(e), doc)
+			// a list of one value is a list: naming the value twice changes nothing
+			if r3, p3 := safeSatisfy(query.Field(f).In(e, e), doc); p3 != "" || r3 != r2 {
+				c.Violation(&Replay{Stream: "sat", Case: []interface{}{J{"k": "sat", "crit": J{"in": []interface{}{hx(f), xj}}, "doc": encDoc(docM)}}, Expected: []string{b01(r3)}, Actual: []string{b01(r2), p3},
+					Note: fmt.Sprintf("In(e) and In(e, e) differ on field %s for e = %v", f, e)})
+				return false
+			}
 			if p1 != "" || p2 != "" {
 				c.Violation(&Replay{Stream: "sat", Case: []interface{}{J{"k": "sat", "crit": J{"contains": []interface{}{hx(f), xj}}, "doc": encDoc(docM)}}, Actual: []string{"panic " + p1 + p2}, Note: "Contains/Eq panicked"})
 				return false
